@@ -5,7 +5,7 @@
 id=$1; wt=$2; feat=${3:-}
 out=/verif/seeded/$id; mkdir -p $out
 cd $wt || exit 1
-git diff -- oxmpl/src oxmpl-py/src > $out/patch.diff
+git diff HEAD -- oxmpl/src oxmpl-py/src > $out/patch.diff
 cp oxmpl/tests/seeded_demo.rs $out/seeded_demo.rs 2>/dev/null
 [ -s $out/patch.diff ] || { echo "empty patch"; exit 1; }
 F=""; [ -n "$feat" ] && F="--features $feat"
